@@ -115,6 +115,99 @@ class StrKernels:
         return StrSummary(method, variant, n, m, chars, ins, idx, paths, time.time() - t)
 
 
+def summarize_multibyte(sk, method, variant, widths, ins_widths=()):
+    """the same entry point on text of the given UTF-8 width classes (utf8models): used for panic freedom only (C17) - what the
+    byte-indexed methods *mean* on multi-byte text is outside the value claim"""
+    import utf8models as U
+    U.install(sk.ex.models)
+    t = time.time()
+    _, argk = METHODS[method]
+    chars = [z3.BitVec("m%d_%d" % (i, w), 32) for i, w in enumerate(widths)]
+    ins = [z3.BitVec("mx%d_%d" % (i, w), 32) for i, w in enumerate(ins_widths)] if "Str" in argk else []
+    pc = []
+    for c, w in list(zip(chars, widths)) + list(zip(ins, ins_widths)):
+        U.register_width(c, w)
+        pc += [U.class_constraint(c, w), z3.UGE(c, 0x20)]
+    idx = [z3.BitVec("i%d" % i, 32) for i in range(argk.count("Int"))]
+    ops = [Adt("Primitive", "Str", [strmodels.sstr([Sc("char", c) for c in chars])])]
+    k = 0
+    for a_ in argk:
+        if a_ == "Str":
+            ops.append(Adt("Primitive", "Str", [strmodels.sstr([Sc("char", c) for c in ins])]))
+        else:
+            ops.append(prim("Int", Sc("i32", idx[k])))
+            k += 1
+    cells = {("ctx",): Adt("Ctx", None, [Adt("Vec", None, ops)] + [Opaque("ctx-field", i) for i in range(1, 6)]),
+             ("self",): Adt("BuiltInFunction", variant, [])}
+    outs = sk.ex.run(sk.fn, [Ref(("self",)), Ref(("ctx",))], cells=cells, pc=pc)
+    paths = []
+    for o in outs:
+        pcz = z3.And(*o.pc) if o.pc else z3.BoolVal(True)
+        paths.append((pcz, "panic" if o.kind == "panic" else "other", o.value.msg if o.kind == "panic" else None))
+    s_ = StrSummary(method, variant, len(widths), len(ins_widths), chars, ins, idx, paths, time.time() - t)
+    s_.widths = tuple(widths)
+    return s_
+
+
+def multibyte_shapes(tier):
+    import itertools
+    out = []
+    for m, (variant, argk) in METHODS.items():
+        if m in ("len", "reverse"):
+            continue
+        for n in (1, 2):
+            for ws in itertools.product((1, 2, 3, 4), repeat=n):
+                if all(w == 1 for w in ws):
+                    continue
+                out.append((m, variant, ws, (2,) if m == "insert" else ()))
+    return out
+
+
+def check_multibyte_panics(s, profile, qs, timeout_ms, seed):
+    out = []
+    for pi, (pc, kind, msg) in enumerate(s.paths):
+        qs.obligations += 1
+        if kind != "panic":
+            qs.discharged += 1
+            continue
+        t = time.time()
+        r, m = Q.solve(z3.simplify(pc), timeout_ms, seed)
+        qs.solver_s += time.time() - t
+        if r == z3.unsat:
+            qs.discharged += 1
+            continue
+        if r != z3.sat:
+            qs.undecided.append("str.%s[widths=%s]/%s:path%d" % (s.method, s.widths, profile, pi))
+            continue
+        qs.violated += 1
+
+        def val(e, d):
+            y = m.eval(e, model_completion=False)
+            return y.as_long() if z3.is_bv_value(y) else d
+        sample = {1: 0x61, 2: 0xE9, 3: 0x4E16, 4: 0x1F600}
+        cps = [val(c, sample[w]) for c, w in zip(s.chars, s.widths)]
+        xps = [val(c, 0xE9) for c in s.ins]
+        iv = [val(e, 0) for e in s.idx]
+        text = "".join(chr(c) for c in cps).encode("utf-8")
+        args = [("Str", int.from_bytes(text, "big"))]
+        k = 0
+        for a_ in METHODS[s.method][1]:
+            if a_ == "Str":
+                args.append(("Str", int.from_bytes("".join(chr(c) for c in xps).encode("utf-8"), "big") if xps else 0))
+            else:
+                args.append(("Int", iv[k] & 0xFFFFFFFF))
+                k += 1
+        f = Q.Finding("C17", "str." + s.method, "widths=%s" % "".join(map(str, s.widths)), "panic:" + Q.panic_class(msg), profile, args,
+                      "Rust panic `%s` in built-in str.%s on multi-byte text" % (msg, s.method))
+        f.native_op = "B:" + s.variant
+        f.predicted = ["PANIC"]
+        f.via = "built-in"
+        f.summ_uninterpreted = False
+        f.human = "%r.%s(..%r)" % ("".join(chr(c) for c in cps), s.method, [x - (1 << 32) if x >= 1 << 31 else x for x in iv])
+        out.append(f)
+    return out
+
+
 # ---------------------------------------------------------------- meaning
 def oracle(s):
     """-> [(condition over the indices, expected value)] covering exactly the method's domain"""
